@@ -182,7 +182,7 @@ SHAPE_OWNERS = {
     "sendDataChunk": ["C08", "C09"], "bufferPopLength": ["C08", "C09"], "bufferComplete/sendDataEnds": ["C08", "C09"],
     "exitPath": ["C14", "C15", "C18"], "asyncioExitPath": ["C14", "C15", "C18"], "trioExitPath": ["C14", "C15", "C18"],
     # HC/Pure/Config.lean is in many import closures (response headers); these items concern the loaders / bind parsing only
-    "fromMappingGuards": ["C19"], "readableKeys/unreadableKeys": ["C19"], "inetIsV6": ["C19"],
+    "fromMappingGuards": ["C19"], "readableKeys/unreadableKeys": ["C19"], "inetIsV6": ["C19"], "createSocketsCarried": ["C19"],
 }
 
 
